@@ -123,7 +123,7 @@ func main() {
 	for f := 1; f <= 3; f++ {
 		ops = append(ops, opT{Kind: "get", F: f})
 	}
-	ops = append(ops, opT{Kind: "reset"}, opT{Kind: "restart"})
+	ops = append(ops, opT{Kind: "reset"}, opT{Kind: "restart"}, opT{Kind: "reset-same-epoch"})
 	c.Set("alphabet_ops", len(ops))
 	type cfgT struct {
 		num    uint
@@ -208,6 +208,13 @@ func main() {
 				epoch++
 				if err := s.ord.Reset(epoch, s.vals); err != nil {
 					c.Violation("reset-error", rep(i+1), "Reset failed: %v", err)
+					return false
+				}
+				model = map[rootKey]bool{}
+			case "reset-same-epoch":
+				// the epoch is abandoned and started again under the same number: it starts with no roots as well
+				if err := s.ord.Reset(epoch, s.vals); err != nil {
+					c.Violation("reset-error", rep(i+1), "Reset to the current epoch number failed: %v", err)
 					return false
 				}
 				model = map[rootKey]bool{}
